@@ -663,77 +663,86 @@ func TestC04(t *testing.T) {
 	nvals := r.N(300, 5000)
 	orders := 8
 	encsPer := r.N(4, 32)
-	for _, s := range reg {
-		rng := r.Rand("values/" + s.name)
-		okc := 0
-		for i := 0; i < nvals; i++ {
-			v := s.gen(rng)
-			r.Eval(1)
-			var b0 []byte
-			var err error
-			if p := kit.Catch(func() { b0, err = s.encode(v) }); p != nil {
-				rep.Violation("encode-panic:"+s.name, fmt.Sprint(p), short(v))
-				continue
-			}
-			if err != nil {
-				rep.Violation("encode-error:"+s.name, err.Error(), short(v))
-				continue
-			}
-			var v1 interface{}
-			if p := kit.Catch(func() { v1, err = s.decode(b0) }); p != nil {
-				rep.Violation("decode-panic-on-honest:"+s.name, fmt.Sprint(p), kit.Hex(b0))
-				continue
-			}
-			if err != nil {
-				rep.Violation("honest-encoding-refused:"+s.name, err.Error(), map[string]string{"value": short(v), "bytes": kit.Hex(b0)})
-				continue
-			}
-			if ok, where := s.same(v, v1); !ok {
-				rep.Violation("roundtrip-differs:"+s.name, "decoded value differs at "+where, map[string]string{"value": short(v), "decoded": short(v1), "bytes": kit.Hex(b0)})
-				continue
-			}
-			b1, err := s.encode(v1)
-			if err != nil || !bytes.Equal(b0, b1) {
-				rep.Violation("reencode-differs:"+s.name, fmt.Sprintf("err=%v", err), map[string]string{"first": kit.Hex(b0), "second": kit.Hex(b1)})
-				continue
-			}
-			okc++
-			ml := maxMapLen(reflect.ValueOf(v))
-			r.Distinct(s.name, lenClass(len(b0)), ml)
-			if s.maps {
-				bad := false
-				for o := 0; o < orders && !bad; o++ {
-					v2 := s.perm(v, rng)
-					for e := 0; e < encsPer; e++ {
-						b2, err := s.encode(v2)
-						r.Eval(1)
-						if err != nil || !bytes.Equal(b2, b0) {
-							rep.Violation("map-order-dependent:"+s.name, fmt.Sprintf("the same logical record (largest map: %d entries) encoded to different bytes (insertion order %d, encoding %d) err=%v", ml, o, e, err),
-								map[string]string{"value": short(v), "first": kit.Hex(b0), "other": kit.Hex(b2)})
-							bad = true
-							break
+	var wg1 sync.WaitGroup
+	sem := make(chan struct{}, 12)
+	for _, s0 := range reg {
+		s := s0
+		wg1.Add(1)
+		sem <- struct{}{}
+		go func() {
+			defer func() { <-sem; wg1.Done() }()
+			rng := r.Rand("values/" + s.name)
+			okc := 0
+			for i := 0; i < nvals; i++ {
+				v := s.gen(rng)
+				r.Eval(1)
+				var b0 []byte
+				var err error
+				if p := kit.Catch(func() { b0, err = s.encode(v) }); p != nil {
+					rep.Violation("encode-panic:"+s.name, fmt.Sprint(p), short(v))
+					continue
+				}
+				if err != nil {
+					rep.Violation("encode-error:"+s.name, err.Error(), short(v))
+					continue
+				}
+				var v1 interface{}
+				if p := kit.Catch(func() { v1, err = s.decode(b0) }); p != nil {
+					rep.Violation("decode-panic-on-honest:"+s.name, fmt.Sprint(p), kit.Hex(b0))
+					continue
+				}
+				if err != nil {
+					rep.Violation("honest-encoding-refused:"+s.name, err.Error(), map[string]string{"value": short(v), "bytes": kit.Hex(b0)})
+					continue
+				}
+				if ok, where := s.same(v, v1); !ok {
+					rep.Violation("roundtrip-differs:"+s.name, "decoded value differs at "+where, map[string]string{"value": short(v), "decoded": short(v1), "bytes": kit.Hex(b0)})
+					continue
+				}
+				b1, err := s.encode(v1)
+				if err != nil || !bytes.Equal(b0, b1) {
+					rep.Violation("reencode-differs:"+s.name, fmt.Sprintf("err=%v", err), map[string]string{"first": kit.Hex(b0), "second": kit.Hex(b1)})
+					continue
+				}
+				okc++
+				ml := maxMapLen(reflect.ValueOf(v))
+				r.Distinct(s.name, lenClass(len(b0)), ml)
+				if s.maps {
+					bad := false
+					for o := 0; o < orders && !bad; o++ {
+						v2 := s.perm(v, rng)
+						for e := 0; e < encsPer; e++ {
+							b2, err := s.encode(v2)
+							r.Eval(1)
+							if err != nil || !bytes.Equal(b2, b0) {
+								rep.Violation("map-order-dependent:"+s.name, fmt.Sprintf("the same logical record (largest map: %d entries) encoded to different bytes (insertion order %d, encoding %d) err=%v", ml, o, e, err),
+									map[string]string{"value": short(v), "first": kit.Hex(b0), "other": kit.Hex(b2)})
+								bad = true
+								break
+							}
+						}
+					}
+					if !bad {
+						r.Count("canonical_records", 1)
+						if ml >= 3 {
+							r.Count("canonical_records_3plus_entries", 1)
+							r.Count("canonical3:"+s.name, 1)
 						}
 					}
 				}
-				if !bad {
-					r.Count("canonical_records", 1)
-					if ml >= 3 {
-						r.Count("canonical_records_3plus_entries", 1)
-						r.Count("canonical3:"+s.name, 1)
-					}
+				if i == 7 && (s.name == "side_chain_manager.FeeInfo" || s.name == "ccm.EntranceParam" || s.name == "btc.MultiSignInfo") {
+					r.Sample(map[string]string{"type": s.name, "value": short(v), "bytes": kit.Hex(b0)})
 				}
 			}
-			if i == 7 && (s.name == "side_chain_manager.FeeInfo" || s.name == "ccm.EntranceParam" || s.name == "btc.MultiSignInfo") {
-				r.Sample(map[string]string{"type": s.name, "value": short(v), "bytes": kit.Hex(b0)})
+			r.Count("roundtrip_ok", okc)
+			r.Count("roundtrip_ok:"+s.name, okc)
+			r.Require("roundtrip_ok:"+s.name, nvals*9/10)
+			if s.maps {
+				r.Require("canonical3:"+s.name, nvals/4)
 			}
-		}
-		r.Count("roundtrip_ok", okc)
-		r.Count("roundtrip_ok:"+s.name, okc)
-		r.Require("roundtrip_ok:"+s.name, nvals*9/10)
-		if s.maps {
-			r.Require("canonical3:"+s.name, nvals/4)
-		}
+		}()
 	}
+	wg1.Wait()
 
 	hostileParent(r, rep, reg)
 }
@@ -811,7 +820,8 @@ func hostileParent(r *kit.Run, rep *reporter, reg []*spec) {
 	}
 	tmp := pk.TempDir("c04-hostile")
 	defer os.RemoveAll(tmp)
-	per := r.N(3000, 100000)
+	per := r.N(3000, 60000)
+	maxDeaths := r.N(6, 8)
 	jobs := make(chan *spec)
 	var wg sync.WaitGroup
 	report := rep.Violation
@@ -820,7 +830,7 @@ func hostileParent(r *kit.Run, rep *reporter, reg []*spec) {
 		for s := range jobs {
 			start := 0
 			deaths := 0
-			for start < per && deaths < 4 {
+			for start < per && deaths < maxDeaths {
 				last := filepath.Join(tmp, strings.Replace(s.name, ".", "_", -1)+".last")
 				os.Remove(last)
 				script := fmt.Sprintf("ulimit -v %d; exec \"$0\" \"$@\"", childMemKB)
@@ -877,7 +887,7 @@ func hostileParent(r *kit.Run, rep *reporter, reg []*spec) {
 			}
 		}
 	}
-	nw := 8
+	nw := 12
 	for i := 0; i < nw; i++ {
 		wg.Add(1)
 		go worker()
@@ -935,7 +945,34 @@ var wideCounts = [][]byte{
 
 // hostileCases is a deterministic function of (type, seed, n).
 func hostileCases(s *spec, rng *rand.Rand, n int) []hostileCase {
-	var out []hostileCase
+	var out, tail []hostileCase
+	// Deterministic probes of every count / length field: a few honest encodings with an
+	// astronomically large count spliced in at every position come first (such a count can only be
+	// refused or make an allocation size check panic, it can never be allocated); the same
+	// positions with a count of 2^31-1 (allocatable on paper, tens of GiB in practice) come last, so
+	// that a decoder that dies on them does not hide the rest of its cases.
+	for k := 0; k < 3; k++ {
+		base, err := s.encode(s.gen(rng))
+		if err != nil || len(base) > 300 {
+			k--
+			continue
+		}
+		for i := 0; i < len(base); i++ {
+			for _, w := range [][]byte{{0xff, 0xff, 0xff, 0xff, 0xff, 0xff, 0xff, 0xff, 0xff}, {0xff, 0xff, 0xff, 0xff, 0xff, 0xff, 0xff, 0xff, 0x7f}} {
+				out = append(out, hostileCase{"astronomic-count-spliced", append(append(append([]byte{}, base[:i]...), w...), base[i+1:]...)})
+			}
+			if k == 0 {
+				tail = append(tail, hostileCase{"count-2^31-spliced", append(append(append([]byte{}, base[:i]...), 0xfe, 0xff, 0xff, 0xff, 0x7f), base[i+1:]...)})
+			}
+		}
+	}
+	if len(out) > n/4 {
+		out = out[:n/4]
+	}
+	if len(tail) > n/8 {
+		tail = tail[:n/8]
+	}
+	n -= len(tail)
 	add := func(class string, d []byte) {
 		if len(out) < n {
 			out = append(out, hostileCase{class, d})
@@ -990,7 +1027,7 @@ func hostileCases(s *spec, rng *rand.Rand, n int) []hostileCase {
 		}
 		add("empty", []byte{})
 	}
-	return out
+	return append(out, tail...)
 }
 
 func TestC04HostileChild(t *testing.T) {
